@@ -48,18 +48,6 @@ Fixpoint strs_eqb (a b : list str) : bool :=
 
 Definition str_in (s : str) (l : list str) : bool := existsb (list_eqb s) l.
 
-(* str.isspace(): the characters removed by str.strip() *)
-Definition is_space (c : Z) : bool :=
-  ((9 <=? c) && (c <=? 13)) || ((28 <=? c) && (c <=? 32)) || (c =? 133) || (c =? 160) || (c =? 5760)
-  || ((8192 <=? c) && (c <=? 8202)) || (c =? 8232) || (c =? 8233) || (c =? 8239) || (c =? 8287) || (c =? 12288).
-
-Fixpoint lstrip (s : str) : str :=
-  match s with
-  | c :: r => if is_space c then lstrip r else s
-  | [] => []
-  end.
-Definition strip (s : str) : str := rev (lstrip (rev (lstrip s))).
-
 (* _parse_decimal: text.isascii() and text.isdigit(), then int(text) *)
 Definition is_digit (c : Z) : bool := (48 <=? c) && (c <=? 57).
 Definition dec_value (s : str) : Z := fold_left (fun acc c => acc * 10 + (c - 48)) s 0.
@@ -305,7 +293,7 @@ Definition MAX_SERVICE_ID : Z := 511.
 (* returns (final name, path to the root namespace) *)
 Definition composite_init (name : str) (mj mn : Z) (port : option Z) (file : list comp)
                           (has_parent_service is_service_type : bool) : res (str * list comp) :=
-  let nm := strip name in
+  let nm := name in                          (* no normalisation of the name (fix F15) *)
   match nm with
   | [] => Err RInvalid
   | _ =>
